@@ -280,7 +280,7 @@ P2_REQUIRED = {
 }
 
 
-@rule("P2", "OPTION-INFLUENCE: each option of convert() reaches exactly the sinks documented for it", ["C11"], floor=25)
+@rule("P2", "OPTION-INFLUENCE: each option of convert() reaches exactly the sinks documented for it", ["C11", "C13"], floor=25, default_props=["C11"])
 def p2(ctx: Ctx):
     P = pipeline(ctx)
     opts = [a.arg for a in P.fn.args.kwonlyargs] + [a.arg for a in P.fn.args.args[1:]]
@@ -302,6 +302,7 @@ def p2(ctx: Ctx):
                 "" if ok else f"option `{o}` is passed to `{callee}` ({kw}), which is not one of the sinks documented for it {sorted(allowed[0])}: it changes another aspect of the output",
                 file=COMPILER_REL,
                 line=ln,
+                props=["C11", "C13"] if o == "default_str_storage" else None,  # the requested size is what replaces the library's placeholders
             )
         for sink, ln in sl["control"]:
             seen.add(sink)
@@ -1215,10 +1216,27 @@ def e6(ctx: Ctx):
         for c_ in ast.walk(vl):
             if isinstance(c_, ast.Call) and isinstance(c_.func, ast.Attribute) and c_.func.attr == "set_is_referenced" and len(c_.args) == 1:
                 a_ = _ra(vl, c_.args[0])
-                if isinstance(a_, ast.Compare) and len(a_.ops) == 1 and isinstance(a_.ops[0], (ast.In, ast.NotIn)):
-                    member = isinstance(a_.ops[0], ast.In) and isinstance(a_.left, ast.Attribute) and a_.left.attr == "num" and unparse(_ra(vl, a_.comparators[0])) == "self._references"
-                elif isinstance(a_, ast.Constant):
+                if isinstance(a_, ast.Constant):
                     member = False
+                else:
+                    # decided on values: the flag has to equal `<line number> in <references>` for the numbers 0 and 7, present and absent
+                    class _R(ast.NodeTransformer):
+                        def visit_Attribute(self, n_):
+                            if n_.attr == "num":
+                                return ast.copy_location(ast.Name(id="num__", ctx=ast.Load()), n_)
+                            if unparse(n_) == "self._references":
+                                return ast.copy_location(ast.Name(id="refs__", ctx=ast.Load()), n_)
+                            self.generic_visit(n_)
+                            return n_
+
+                    import copy as _copy
+
+                    e_ = _R().visit(_copy.deepcopy(a_))
+                    try:
+                        verdicts = [bool(_guard_eval(e_, {"num__": v_, "refs__": refs_})) == (v_ in refs_) for v_ in (0, 7) for refs_ in ({v_}, {v_ + 1}, set())]
+                        member = all(verdicts)
+                    except _GuardUnknown:
+                        member = None
         if member is None:
             ctx.undecided(f"{cls}:membership", "the flag given to set_is_referenced is not a plain membership test", file=VISITORS_REL, line=vl.lineno)
             continue
@@ -1240,4 +1258,4 @@ def e6(ctx: Ctx):
             ctx.undecided(f"{cls}:membership", "the test that selects line 0 is not one of the recognised forms", file=VISITORS_REL, line=vl.lineno)
             continue
         ok = member and (bool(zero) if needs_zero else not guards)
-        ctx.idiom(f"{cls}:membership", member or bool(guards), ok, "" if ok else f"`{cls}.visit_line` does not set the flag to `line.num in references`" + (" only for line 0" if needs_zero else " for every line"), file=VISITORS_REL, line=vl.lineno)
+        ctx.ob(f"{cls}:membership", ok, "" if ok else f"`{cls}.visit_line` does not set the flag to `line.num in references`" + (" only for line 0" if needs_zero else " for every line"), file=VISITORS_REL, line=vl.lineno)
